@@ -413,7 +413,15 @@ class GVal:
                 ren["p%d" % (nd - oldpos)] = "q%d" % (nd - newpos)  # two-step renaming avoids clashes
         data = _np.transpose(self.data, perm)
         sym = {(nd - perm.index(nd - slot)): axs for slot, axs in self.sym.items()}
-        reads = self.reads
+        newslot = lambda slot: nd - perm.index(nd - slot)
+        reads = []
+        for r in self.reads:
+            r = dict(r)
+            if r.get("kept"):
+                r["kept"] = {k: newslot(sl) for k, sl in r["kept"].items()}
+            if r.get("advslots"):
+                r["advslots"] = {newslot(sl): a_ for sl, a_ in r["advslots"].items()}
+            reads.append(r)
         if ren:
             data, reads = _rename_positions(data, reads, ren)
             fin = {v: "p" + v[1:] for v in ren.values()}
@@ -426,6 +434,28 @@ class GVal:
         for i in range(df.size):
             of[i] = f(S.lift(df[i]))
         return GVal(out, self.sym, self.reads)
+
+
+def _drop_rows(reads, ndim, axis, keep_ndim):
+    """reads of a value one of whose concrete axes is summed / contracted away (tensordot appends the new axis at the end, so
+    the number of axes stays; a reduction removes the axis): the row bookkeeping of axes LEFT of it keeps its position from the
+    right only with tensordot; everything else about rows is forgotten (the reads then count for every row)"""
+    out = []
+    for r in reads:
+        r = dict(r)
+        for key in ("kept", "advslots"):
+            if r.get(key):
+                d = {}
+                for a, b in r[key].items():
+                    slot = b if key == "kept" else a
+                    pos = ndim - slot
+                    if pos < axis and keep_ndim:
+                        d[a] = b
+                    elif pos > axis and not keep_ndim:
+                        d[a] = b
+                r[key] = d
+        out.append(r)
+    return out
 
 
 def _rename_positions(data, reads, ren):
@@ -641,7 +671,14 @@ class GArray:
             b2 = list(bounds)
             if adv:
                 b2 += [(el[k], self.dims[k]) for kind, k, _arr in adv[1] if kind == "s"]
-            events.append(dict(kind="read" if reading else "write", idx=eidx, cons=list(cons), bounds=b2, loops=list(C.loops), seq=None, tid=self.tid))
+            ev = dict(kind="read" if reading else "write", idx=eidx, cons=list(cons), bounds=b2, loops=list(C.loops), seq=None, tid=self.tid)
+            # concrete coordinates this event fixes (integer / integer-array index on a concrete axis); the kept concrete axes with
+            # their position from the right in the result; the position along the broadcast integer-array axes
+            ev["tfix"] = dict(tp)
+            ev["kept"] = {k: n - pos for pos, k in kept}
+            if adv:
+                ev["advslots"] = {n - q: a_ for q, a_ in enumerate(apos)}  # slot of the broadcast axis -> position along it
+            events.append(ev)
         return data, sym, events
 
     def __getitem__(self, idx):
@@ -686,12 +723,21 @@ class GArray:
         val = GVal.lift(val)
         C.seq += 1
         ev["seq"] = C.seq
+        tslot = {sl: k for k, sl in ev["kept"].items()}  # position from the right -> concrete axis of the target
         for r in val.reads:
             r = dict(r)
             r["seq"] = C.seq
             r["wcons"] = ev["cons"]
             r["widx"] = ev["idx"]
             r["wtid"] = self.tid
+            # rows: a read made through integer-array indices serves the target row at the same position of the aligned axis; a
+            # concrete axis of the table read that was kept (':') and is aligned with a concrete axis of the target is read row
+            # by row (rmap: axis of the table read -> axis of the target)
+            r["wrows"] = dict(ev["tfix"])
+            for sl, a_ in (r.get("advslots") or {}).items():
+                if sl in tslot:
+                    r["wrows"][tslot[sl]] = a_
+            r["rmap"] = {k: tslot[sl] for k, sl in (r.get("kept") or {}).items() if sl in tslot}
             C.events.append(r)
         # aligned symbolic axes: equal length; the value may not have a symbolic axis the target lacks
         ev["len1"] = []
@@ -851,7 +897,7 @@ class GNp:
             if any(a.data.ndim - slot > ax_a for slot in a.sym):
                 raise alg.Undecided("tensordot over an axis left of a symbolic axis")
             out = _np.tensordot(a.data, _np.asarray(b, dtype=object), (ax_a, ax_b))
-            return GVal(out, a.sym, a.reads)
+            return GVal(out, a.sym, _drop_rows(a.reads, a.data.ndim, ax_a, keep_ndim=True))
         return self._p.tensordot(a, b, axes)
 
     def _reduce(self, name, x, axis, k, unit, op):
@@ -869,7 +915,7 @@ class GNp:
                 for j in range(x.data.shape[axis]):
                     acc = op(acc, x.data[pos[:axis] + (j,) + pos[axis:]])
                 out[pos] = acc
-            return GVal(out, x.sym, x.reads)
+            return GVal(out, x.sym, _drop_rows(x.reads, x.data.ndim, axis, keep_ndim=False))
         if isinstance(x, (GArray, GIota)):
             raise alg.Undecided("np.%s of a whole table" % name)
         return getattr(self._p, name)(x, axis=axis, **k)
